@@ -8,7 +8,7 @@ from sa import run as _run
 from sa import q as Q
 from sa.cfg import cfg_of, PathBoundExceeded
 from sa.pathsim import PathSim, C, NULL
-from sa.q import cond_atoms, strip_sv, sv_field_path, atomic_op, noepoch
+from sa.q import cond_atoms, strip_sv, sv_field_path, atomic_op, noepoch, sv_mentions
 from . import fc
 
 PROPERTY = "C11"
@@ -135,6 +135,19 @@ def r11_1(ctx):
                             if took and later:
                                 n += 1
                                 ctx.check(len(held) >= 1, "R11.1", F, "the slot node is locked before the size lock is released (hand-over-hand)", e.node, detail=R, sig="hand-over")
+                                # ... and it is the node of the slot just taken: every node written later whose index is the counter's result
+                                # (m_Heap[i] with i = inc()/dec()) is already locked here - otherwise a concurrent push/pop can be handed the same slot
+                                res = [noepoch(x.val) for x in took if x.val is not None]
+                                # a node id is the result of m_Heap[idx]: find that call's index argument
+                                idx_of = dict((noepoch(x.val), [noepoch(a) for a in x.args]) for x in ev
+                                              if x.kind == "call" and x.q and x.q.endswith("operator[]") and x.val is not None)
+                                for x in ev[i + 1:]:
+                                    for nd in node_writes(F, x):
+                                        idx = idx_of.get(noepoch(nd), [])
+                                        if any(sv_mentions(a, r) for a in idx for r in res):
+                                            n += 1
+                                            ctx.check(nd in held, "R11.1", F, "the node of the slot taken from the counter is locked before the size lock is released", e.node,
+                                                      detail="slot node %r is written later but is not among the locks held when m_Lock is released: %r. %s" % (nd, held, R), sig="hand-over-slot")
                     fin, fsize = snap[-1]
                     bad_unlock = [h for h in fin if isinstance(h, tuple) and h[:1] == ("UNLOCK-OF-UNHELD",)]
                     n += 1
